@@ -204,7 +204,15 @@ def run(ck):
 
 
 def run_(ck):
+    import time
+    tm = {"t": time.time()}
+
+    def lap(what):
+        now = time.time()
+        ck.coverage.setdefault("phase_s", {})[what] = round(now - tm["t"], 1)
+        tm["t"] = now
     Lb, harness = build_tree()
+    lap("build lib+harness")
     infos, problems, regenerated = regen_templates(Lb["snap"])
     ck.tie = "regenerated+correspondence" if regenerated else "correspondence"
     if problems:
@@ -231,7 +239,9 @@ def run_(ck):
         "MQL has no compiler here: the MQL text is judged by the oracle parser with the C precedences only",
     ]
 
+    lap("coq prove")
     model = vv.ocaml_model("Lang")
+    lap("extract + ocaml")
     catalog = L.Catalog(infos)
     missing = [i for i in L.TYPED if i not in catalog.infos]
     if missing:
@@ -250,6 +260,7 @@ def run_(ck):
         cases += g.random_cases(6000 if ck.thorough else 600, depth=6 if ck.thorough else 4)
         cases += g.user_cases(300 if ck.thorough else 60)
         cases += g.malformed_cases()
+        cases += g.quote_cases()
         cases += g.exec_cases(3000 if ck.thorough else 400, depth=5 if ck.thorough else 4)
     cases = [c for c in cases if all(s.get("ident", "real_add") in catalog.infos for s in c.syms)]
 
@@ -271,6 +282,7 @@ def run_(ck):
     if len(mout) != len(cases):
         raise vv.BuildError("model driver answered %d of %d cases" % (len(mout), len(cases)))
 
+    lap("generate + run harness and model")
     failures = []     # (fmt, kind, case index, message)
     reader_bad = []
     flag_hist = {}
@@ -331,8 +343,12 @@ def run_(ck):
                     failures.append((f, "denotes-another-expression", k,
                                      "reads as %s, the program is %s" % (L.show_ast(got)[:300], L.show_ast(want)[:300])))
 
+    lap("compare + oracle parser")
     # oracle (b): the compilers
-    typed = [(k, c) for k, c in enumerate(cases) if c.typed and c.wellformed and impl[k] and impl[k][0]]
+    # (cases aimed at the unescaped-quote finding would unbalance the whole batch file: they are judged by the
+    # oracle parser and by CPython only)
+    typed = [(k, c) for k, c in enumerate(cases) if c.typed and c.wellformed and not c.known_key
+             and impl[k] and impl[k][0]]
     with concurrent.futures.ThreadPoolExecutor(3) as ex:
         fc = ex.submit(compile_batch, [(k, L.c_function(c, k, impl[k][0]["c"].decode("latin-1"))) for k, c in typed],
                        L.C_PRELUDE, "gcc", "-std=c11", ".c")
@@ -351,6 +367,7 @@ def run_(ck):
     ck.coverage["compiled_c"] = len(typed)
     ck.coverage["compiled_python"] = len([1 for c in cases if c.wellformed and c.tag != "user"])
 
+    lap("compilers")
     # oracle (c): execution of the C text against the interpreter
     ex_cases = [(k, c, impl[k][0]["c"].decode("latin-1")) for k, c in enumerate(cases)
                 if c.vectors is not None and impl[k] and impl[k][0]
@@ -377,6 +394,7 @@ def run_(ck):
                         break
     ck.coverage["executed_c_evaluations"] = executed
 
+    lap("execution")
     # texts the extracted reader does not read as the program's expression: a violation if the
     # independent oracle agrees (then it is in `failures`), otherwise the model's parser is at fault
     flagged = {(f, k) for f, kind, k, msg in failures}
@@ -390,6 +408,13 @@ def run_(ck):
     # report the smallest failing program of each (format, kind)
     best = {}
     for f, kind, k, msg in failures:
+        if cases[k].known_key:
+            # a case built to exhibit a recorded known finding: reported under that key
+            ck.add_violation(cases[k].known_key,
+                             "the %s text %r %s: %s" % (f, impl[k][0][f].decode("latin-1"), kind, msg),
+                             {"case": cases[k].to_json(), "format": f, "impl_text": impl[k][0][f].decode("latin-1"),
+                              "verdict": msg})
+            continue
         key = (f, kind)
         if key not in best or len(cases[k].genes) < len(cases[best[key][0]].genes):
             best[key] = (k, msg)
